@@ -41,12 +41,15 @@ BOUNDS = {
         "F0: x-2 in slot 1, one class x 9-item menu (46 universes); F1: x-2 carries up to two classes x 9-item menu (856); "
         "F2: x-2 and y-2 one class each (45 x 30) with 4 installed subsets; F4: installed x-1 mirrors a dependency-carrying "
         "source x-1 (15 x 10), self-consistent installed subsets only; F0/F1/F4 x all 8 installed subsets; x 3 target lists x "
-        "4 resolver kinds = 162,792 resolutions"
+        "4 resolver kinds; F5: one blocker atom carried by x-2 and y-2, y-2 abandoned on a missing dependency, blocked z requested "
+        "afterwards (10 x 10, targets 'a/x a/z'); F6: x-2 refused at insertion by a blocker of the already planned z-1, with "
+        "a dependency cycle through y-2 (2 x 10 x 10) or a dependency-carrying fallback x-1 (2 x 2 x 10), targets 'a/z a/x'; "
+        "168,232 resolutions"
     ),
     "thorough": (
         "F1 with x-2 in slot 0 and in slot 1 (1712); F2 with x-1 in 4 dependency settings (5400) x 8 installed subsets; F3: "
         "x-1, x-2, y-2, z-1 each carry one of DEPEND/RDEPEND/PDEPEND from a 3-item menu (6561) x 4 installed subsets; F4 "
-        "(45 x 16); x 6 target lists x 6 resolver kinds = 3,145,680 resolutions"
+        "(45 x 16); x 6 target lists x 6 resolver kinds; F5 and F6 as in quick x 6 kinds; 3,153,840 resolutions"
     ),
 }
 
@@ -413,6 +416,11 @@ def extra_families():
         for d in one_class(REFUSED_X)[1:]:
             for e in one_class(REFUSED_Y)[1:]:
                 out.append(("F6", {}, d, e, "0", g, "q", False, [["a/z", "a/x"]]))
+    # F6b: the refused candidate's fallback version (x-1) carries dependencies of its own
+    for g in REFUSE_Z:
+        for d in ({}, {"DEPEND": "a/y"}):
+            for f in one_class(["a/y", ">=a/y-2"])[1:]:
+                out.append(("F6", f, d, {}, "0", g, "q", False, [["a/z", "a/x"]]))
     return out
 
 
@@ -598,7 +606,81 @@ def _k_slot_cycle_wrong_version(case):
     return True
 
 
+def _parse_final(case):
+    fin = []
+    for f in case.get("final") or []:
+        inst = f.endswith("[installed]")
+        nv, slot = f.split("[")[0].rsplit(":", 1)
+        name, ver = nv.split("/", 1)[1].rsplit("-", 1)
+        fin.append((name, int(ver), slot, "inst" if inst else "src"))
+    return fin
+
+
+def _refused_top(case, name, fin):
+    """The highest source version of ``name`` is matched by a blocker that a merged package of the final state carries."""
+    tops = [p for p in case["uni"]["src"] if p[0] == name]
+    if not tops:
+        return None
+    top = max(tops, key=lambda p: p[1])
+    deps = {(n, v, s): d for n, v, s, d in case["uni"]["src"]}
+    for q in fin:
+        if q[3] != "src" or q[0] == name:
+            continue
+        for c in CLS:
+            for clause in parse_dep(deps[q[:3]].get(c, "")):
+                for a in clause:
+                    if a["blk"] and ref_match(a, tuple(top[:3])):
+                        return top
+    return None
+
+
+def _k_refused_presolved(case):
+    """Every unsatisfied clause is a single versioned atom on package name N, the final state keeps an installed N that the
+    atom rejects, and the highest source version of N is matched by a blocker of a merged package: insert_choice treats
+    the atom as 'already in the plan' once the installed node was loaded for the refused candidate, and the dependencies
+    resolved for that candidate stay planned."""
+    tags = case.get("tags") or []
+    if case.get("what") != "invalid-plan" or not tags or not all(t.endswith("-dependency") for t in tags):
+        return False
+    fin = _parse_final(case)
+    unsat = case.get("unsat") or []
+    if not unsat:
+        return False
+    for _cls, txt, _owner in unsat:
+        if txt.startswith("||"):
+            return False
+        a = parse_atom(txt)
+        if not a["op"]:
+            return False
+        if not any(q[0] == a["name"] and q[3] == "inst" and not ref_match(a, q) for q in fin):
+            return False
+        if _refused_top(case, a["name"], fin) is None:
+            return False
+    return True
+
+
+def _k_stale_dependency_lists(case):
+    """Every unsatisfied clause belongs to a merged package that is not the highest source version of its name, and that
+    highest version is matched by a blocker of a merged package: after the refused insertion choice_point.force_next_pkg
+    moves to the next candidate without re-reading its dependency lists, so the fallback's own dependencies are never
+    looked at."""
+    if case.get("what") != "invalid-plan":
+        return False
+    fin = _parse_final(case)
+    unsat = case.get("unsat") or []
+    if not unsat:
+        return False
+    for _cls, _txt, owner in unsat:
+        name, ver = owner.split(":")[0].split("/", 1)[1].rsplit("-", 1)
+        top = _refused_top(case, name, fin)
+        if top is None or int(ver) >= top[1]:
+            return False
+    return True
+
+
 CLASSIFIERS = {
+    "refused-candidate-presolved-by-installed-node": _k_refused_presolved,
+    "fallback-candidate-walked-with-stale-dependency-lists": _k_stale_dependency_lists,
     "slot-cycle-accepts-wrong-version": _k_slot_cycle_wrong_version,
     "resolver-construction-unhashable-filter": _k_construct_typeerror,
     "idepend-read-from-pdepend": _k_idepend_ignored,
